@@ -35,6 +35,39 @@ func batchMethod(c *ssa.CallCommon) (string, ssa.Value) {
 	return f.Name(), c.Args[0]
 }
 
+// batchParamWritesOnly: parameter i of g (a *BitsWriterBatch) is used in g only as the receiver of Write/WriteN/WriteBytesN, or
+// handed to another package function that does the same: g may set the latch, never reads or clears it, keeps no copy.
+func batchParamWritesOnly(g *ssa.Function, i, depth int) bool {
+	if i >= len(g.Params) || !isBatchPtr(g.Params[i].Type()) || depth > 3 {
+		return false
+	}
+	prm := g.Params[i]
+	for _, ref := range *prm.Referrers() {
+		switch x := ref.(type) {
+		case *ssa.DebugRef:
+		case *ssa.Call:
+			if m, recv := batchMethod(&x.Call); recv == ssa.Value(prm) {
+				if m != "Write" && m != "WriteN" && m != "WriteBytesN" {
+					return false
+				}
+				continue
+			}
+			h := x.Call.StaticCallee()
+			if h == nil || h.Pkg != g.Pkg || len(h.Blocks) == 0 {
+				return false
+			}
+			for j, arg := range x.Call.Args {
+				if arg == ssa.Value(prm) && !batchParamWritesOnly(h, j, depth+1) {
+					return false
+				}
+			}
+		default:
+			return false
+		}
+	}
+	return true
+}
+
 // E1 — batch latch consumed: every path from a Write*/WriteN/WriteBytesN on a BitsWriterBatch to a
 // return passes a call of Err() on the same batch, unless the return carries a provably non-nil error.
 func E1(p *load.Program, r *report.Report) {
@@ -54,6 +87,7 @@ func E1(p *load.Program, r *report.Report) {
 			key := fmt.Sprintf("%s/batch#%d", load.FuncName(f), bi)
 			// any use of the batch other than method calls on it makes the analysis undecided
 			escaped := false
+			passed := map[ssa.Instruction]bool{} // calls that hand the batch to a package function which only writes through it
 			for _, ref := range *a.Referrers() {
 				switch x := ref.(type) {
 				case *ssa.Store:
@@ -62,7 +96,21 @@ func E1(p *load.Program, r *report.Report) {
 					}
 				case ssa.CallInstruction:
 					if m, recv := batchMethod(x.Common()); m == "" || recv != a {
-						escaped = true
+						g := x.Common().StaticCallee()
+						ok := g != nil && g.Pkg == f.Pkg && len(g.Blocks) > 0
+						if _, isCall := x.(*ssa.Call); !isCall {
+							ok = false
+						}
+						for i, arg := range x.Common().Args {
+							if arg == ssa.Value(a) && ok && !batchParamWritesOnly(g, i, 0) {
+								ok = false
+							}
+						}
+						if ok {
+							passed[x] = true
+						} else {
+							escaped = true
+						}
 					}
 				case *ssa.DebugRef:
 				default:
@@ -90,6 +138,11 @@ func E1(p *load.Program, r *report.Report) {
 				for _, ins := range b.Instrs {
 					switch x := ins.(type) {
 					case ssa.CallInstruction:
+						if passed[x] {
+							st = dirty // the callee writes through the batch and leaves the latch to the owner
+							nWrites++
+							break
+						}
 						m, recv := batchMethod(x.Common())
 						if recv != a {
 							break
@@ -535,7 +588,7 @@ func E2E3(p *load.Program, r *report.Report, sets IOSets, opt E2Options) {
 						// the return is also reachable without passing the non-nil edge (join point):
 						// only the derived/non-nil property of the phi edges matters; handled below
 					}
-					if derivesOnEdge(rv, d, nonNil, ret, errV) {
+					if derivesOnEdge(rv, d, nonNil, ret, errV) || mergedBeforeTest(rv, d, nonNil, call) {
 						if tainted {
 							if w := lossyWrap(rv, d, wraps); w != nil {
 								bad = fmt.Sprintf("%s error from %s is wrapped at %s without %%w: the cause is lost", kind, short, p.Pos(w.Pos()))
@@ -733,6 +786,29 @@ func derivesOnEdge(rv ssa.Value, d map[ssa.Value]bool, from *ssa.BasicBlock, ret
 		return d[v]
 	}
 	return rec(rv)
+}
+
+// mergedBeforeTest: the returned value is a phi that was merged BEFORE the test (`switch … { case A: n, err = f() case B: n, err = g() };
+// if err != nil { return 0, err }`): it is the tested value itself. It carries this call's error on every path that passes the call
+// when each incoming edge whose predecessor is reachable from the call brings a value derived from that error (an edge from a sibling
+// case cannot follow the call; an edge on which a later call overwrote the error can, and is refused).
+func mergedBeforeTest(rv ssa.Value, d map[ssa.Value]bool, nonNil *ssa.BasicBlock, call *ssa.Call) bool {
+	phi, ok := rv.(*ssa.Phi)
+	if !ok || !d[rv] || !(phi.Block() == nonNil || phi.Block().Dominates(nonNil)) {
+		return false
+	}
+	any := false
+	for i, e := range phi.Edges {
+		pred := phi.Block().Preds[i]
+		if pred != call.Block() && !ssau.Reaches(call.Block(), pred) {
+			continue
+		}
+		if !d[e] {
+			return false
+		}
+		any = true
+	}
+	return any
 }
 
 // isNilTestBlock: the block ends in a branch on a nil comparison of the error.
